@@ -168,7 +168,7 @@ func checkC12(c *Ctx) {
 				"the size stored in the handle is calculateSize of something other than the template stored in that handle", c.describe(st))
 		})
 	}
-	c.floor("O2 size-provenance", nSize, 4)
+	c.floor("O2 size-provenance", nSize, 3)
 
 	// ---- O3 max placeholders ---------------------------------------------------------------------
 	c.checkMaxPlaceholders("O3 max-placeholder")
@@ -229,6 +229,9 @@ func checkC12(c *Ctx) {
 
 	// ---- O5 freeBytes -------------------------------------------------------------------------------
 	c.checkFreeBytes("O5 free-bytes")
+	// ---- O6 the measuring device itself (shared with C16 O2/O3) --------------------------------------
+	c.checkCalcTransport("O6 calc-transport")
+	c.checkCalculateSize("O6 calculate-size")
 }
 
 // cellOfAny: v is a load of a local cell (single- or multi-store).
